@@ -32,10 +32,10 @@ kani_unit("fri_verifier", "winter-fri", "fri/src/verifier/mod.rs", "kani/fri_ver
     H("fri_verifier_new_contract", ["C05", "C04"], ["FriVerifier::new"],
       "3 commitments, folding 4, degree bounds 63, 255, 31, 11, 62, 14: each commitment is absorbed and exactly one challenge drawn right after it, in order, and stored for its layer; DegreeTruncation(depth) iff (d+1) is not divisible by 4^(depth+1) at a non-final depth",
       bounded="3 layer commitments, folding factor 4, six concrete degree bounds; commitments and coin seed symbolic"),
-    H("fri_verifier_remainder_binding_contract", ["C05", "C03"], ["FriVerifier::verify", "FriVerifier::verify_generic", "VerifierChannel::read_remainder", "eval_horner"],
+    H("fri_verifier_remainder_binding_contract", ["C05", "C03", "C04"], ["FriVerifier::verify", "FriVerifier::verify_generic", "VerifierChannel::read_remainder", "eval_horner"],
       "zero-layer schedule, one query: verify == Ok implies hash_elements(remainder) == the last absorbed commitment and remainder(x_pos) == queried evaluation",
       bounded="zero FRI layers, one query, remainder of 1 symbolic coefficient; commitment, evaluation, position symbolic"),
-    H("fri_verifier_remainder_missing_commitment_contract", ["C05", "C03"], ["FriVerifier::new", "FriVerifier::verify_generic"],
+    H("fri_verifier_remainder_missing_commitment_contract", ["C05", "C03", "C04"], ["FriVerifier::new", "FriVerifier::verify_generic"],
       "zero-layer schedule with an empty commitment list: the (consistent) remainder is refused - it is bound to no commitment",
       bounded="zero FRI layers, one query, remainder of 1 symbolic coefficient"),
     H("fri_verifier_remainder_degree_contract", ["C05"], ["FriVerifier::verify", "FriVerifier::verify_generic"],
